@@ -4,7 +4,8 @@ Two independent pieces, written from the language description and sharing no cod
 
 * ``logical_lines(text)``  - the line joiner: physical lines are separated by LF (an optional CR before it is dropped);
   a line that is blank or whose first non-blank character is ``#`` is a comment line and is skipped; a line whose last
-  non-blank character is a backslash is continued on the next non-comment line (the first piece loses the backslash and
+  non-blank character is a backslash is continued on the next non-comment line - comment lines between the pieces are
+  skipped like anywhere else - (the first piece loses the backslash and
   its trailing blanks, every later piece is trimmed on both sides, pieces are joined by one space). Every logical line
   knows the 1-based number of the physical line it starts on.
 * ``run_blocks(items)``    - the push-down automaton over block keyword lines. It says *accept* or gives the set of
@@ -29,7 +30,7 @@ class Logical:
         self.text = text
         self.raws = raws
         self.pending = pending            # the text ended while a continuation was still open
-        self.interrupted = interrupted    # a comment/blank line sits between the pieces (joining left open by the docs)
+        self.interrupted = interrupted    # a BLANK line sits between the pieces (comment lines there are documented as fine)
 
     def __repr__(self):
         return f'Logical({self.start}-{self.end} {self.text!r}{" pending" if self.pending else ""})'
@@ -56,7 +57,7 @@ def logical_lines(text):
     interrupted = False
     for number, raw in enumerate(physical_lines(text), 1):
         if is_comment(raw):
-            if pieces is not None:
+            if pieces is not None and raw.strip() == '':
                 interrupted = True
             continue
         trimmed = raw.rstrip()
